@@ -199,6 +199,7 @@ class Info:
         self.kind, self.ty, self.guard, self.params, self.ret, self.isproc = kind, ty, guard, params, ret, isproc
         self.enum = enum    # erg type is a multi-valued enum {a, b} (from an if-expression): see Gen.noenum
         self.const = False  # erg knows the value at compile time (singleton type): defined by a literal / a const variable
+        self.cval = None    # that value
 
 
 class Gen:
@@ -408,21 +409,70 @@ class Gen:
         return t
 
     def is_const(self, e):
-        """erg can evaluate e at compile time: every variable in it has a singleton type"""
-        ok = [True]
+        """erg can evaluate e at compile time (lower.rs get_bin_guard_type -> expr_to_value / expr_to_tp): every variable
+        in it has a singleton type and the constant evaluator (ty/value.rs try_add ...) does not give up: ValueObj holds
+        a Nat as u64 and an Int as i32, so an intermediate result outside those ranges makes the evaluation fail"""
+        return self.const_eval(e) is not None
 
-        def f(x):
-            if x.tag == E_VAR and not self.info[x.args[0]].const:
-                ok[0] = False
-            if x.tag in (E_CALL, E_INDEX, E_LEN, E_ABS, E_IF, E_LIST):
-                ok[0] = False
-        f(e)
+    def is_const_tp(self, e):
         stack = [e]
         while stack:
             x = stack.pop()
-            f(x)
+            if x.tag == E_VAR and not self.info[x.args[0]].const:
+                return False
+            if x.tag in (E_CALL, E_INDEX, E_LEN, E_ABS, E_IF, E_LIST):
+                return False
             stack += sub_exprs(x)
-        return ok[0]
+        return True
+
+    def const_eval(self, e):
+        """python value of e as erg's constant evaluator computes it, or None when it gives up"""
+        t, a = e.tag, e.args
+
+        def fit(v, ty):
+            # ValueObj::int_op: exact in i128, representable as Int(i32) or Nat(u64)
+            if isinstance(v, bool) or v is None:
+                return v
+            if isinstance(v, int):
+                return v if -2**31 <= v < 2**64 else None
+            return v
+        if t == E_LIT:
+            k, v = a
+            if k == L_FLOAT:
+                return bits2f(v)
+            if k == L_BOOL:
+                return bool(v)
+            if k == L_NONE:
+                return None
+            return v
+        if t == E_VAR:
+            inf = self.info[a[0]]
+            return inf.cval if inf.const else None
+        if t == E_UN:
+            v = self.const_eval(a[1])
+            if v is None or a[0] == UN_INV:
+                return None
+            if a[0] == UN_NOT:
+                return not v
+            return fit(-v if a[0] == UN_NEG else v, e.ty)
+        if t in (E_BIN, E_CMP, E_LOGIC):
+            x, y = self.const_eval(a[1]), self.const_eval(a[2])
+            if x is None or y is None:
+                return None
+            try:
+                if t == E_BIN:
+                    op = a[0]
+                    if isinstance(x, str) or isinstance(y, str):
+                        return x + y if op == 0 else x * y
+                    v = [lambda: x + y, lambda: x - y, lambda: x * y, lambda: x / y, lambda: x // y, lambda: x % y,
+                         lambda: x ** y][op]()
+                    return fit(v, e.ty)
+                if t == E_CMP:
+                    return [x < y, x <= y, x == y, x != y, x > y, x >= y][a[0]]
+                return (x or y) if a[0] else (x and y)
+            except (ZeroDivisionError, OverflowError, TypeError):
+                return None
+        return None
 
     def cmp(self, d):
         r = self.rng
@@ -442,8 +492,9 @@ class Gen:
             ta, tb = r.choice([NAT, INT]), r.choice([NAT, INT])
             op = r.choice([2, 3])
         a, b = self.expr(ta, d - 1), self.expr(tb, d - 1)
-        # lower.rs get_bin_guard_type: the comparison gets a guard type iff the right operand is a compile-time value
-        g = self.is_const(b)
+        # lower.rs get_bin_guard_type: == != need the *value* of the right operand (expr_to_value), the orderings only a
+        # type parameter (expr_to_tp: may stay symbolic, so it only fails on a variable that is not a constant)
+        g = self.is_const(b) if op in (2, 3) else self.is_const_tp(b)
         return Ex(E_CMP, [op, a, b], BOOL, guard=g, sguard=g)
 
     def logic(self, d):
@@ -527,6 +578,12 @@ class Gen:
         i = self.fresh(Info("var", vty, guard, enum=e.enum and not ann))
         self.info[i].const = (e.tag == E_LIT or (e.tag == E_VAR and self.info[e.args[0]].const)
                               or (e.tag == E_UN and e.args[0] == UN_NOT and e.args[1].tag == E_LIT))
+        if self.info[i].const:
+            self.info[i].cval = self.const_eval(e.args[1] if e.tag == E_UN else e)
+            if e.tag == E_UN:
+                self.info[i].cval = not self.info[i].cval
+            if self.info[i].cval is None and not (e.tag == E_LIT and e.args[0] == L_NONE):
+                self.info[i].const = False
         st = St(S_DEF, [i, ann, e])
         self.bind(i)
         return st
